@@ -322,7 +322,7 @@ def writeGain (s : State) (d : Array Nat) : M (State × Nat) := do
   s ← ctlWrite s (ADDR_STM_CYCLE0 + segment) 0
   s ← ctlWrite s (ADDR_STM_MODE0 + segment) STM_MODE_GAIN
   s := { s with stmCycle := setSel s.stmCycle segment 1, stmRep := setSel s.stmRep segment 0xFFFF,
-                stmDiv := setSel s.stmDiv segment 0xFFFF }
+                stmDiv := setSel s.stmDiv segment 0xFFFF, stmMode := setSel s.stmMode segment STM_MODE_GAIN }
   s ← ctlWrite s ADDR_STM_MEM_WR_SEGMENT segment
   s ← ctlWrite s ADDR_STM_MEM_WR_PAGE 0
   s ← stmWriteWords s 0 (wordsAt d FwLayout.Gain_size s.numTr)
@@ -338,6 +338,8 @@ def changeGainSegment (s : State) (d : Array Nat) : M (State × Nat) := do
   if segment > 1 then .error (.index "change_gain_segment: stm_mode[segment]") else
   if sel s.stmMode segment ≠ STM_MODE_GAIN ∨ sel s.stmCycle segment ≠ 1 then
     return (s, ERR_INVALID_SEGMENT_TRANSITION)
+  if validateSilencerSettings s (sel s.stmDiv segment) (sel s.modDiv s.modSegment) then
+    return (s, ERR_INVALID_SILENCER_SETTING)
   let s := { s with stmSegment := segment }
   let s ← ctlWrite s ADDR_STM_REQ_RD_SEGMENT segment
   let s ← ctlWrite s ADDR_STM_TRANSITION_MODE TRANSITION_MODE_SYNC_IDX
